@@ -376,7 +376,9 @@ class Unit:
 
         for a1, a2, lines_, tl in cuts:
             try:
-                k1, k2 = find_anchor(a1, 0), find_anchor(a2, 0)
+                # end anchor `$` = up to (not including) the function's closing brace
+                k1 = find_anchor(a1, 0)
+                k2 = (len(rows) - 1) if a2 == "$" else find_anchor(a2, 0)
             except ExtractError as e:
                 lost("cut anchors %r .. %r lost (block kept)" % (a1, a2))
                 continue
